@@ -1,6 +1,5 @@
 (* C03 — Casts and implicit conversions preserve the C value.
-   FALSE of the faithful model (D3: the fill bit of a widening CAST is MSB only if BOTH types are
-   signed); refuted by witness, true of the repaired model on the witness; the general theorem for
+   D3 (the fill bit of a widening CAST was MSB only if BOTH types are signed) is FIXED in /repo; still FALSE of the faithful model (D29); refuted by witness, true of the repaired model on the witness; the general theorem for
    the repaired model lives in proofs/ (conversion lemma init_a_cast_ok, when present). *)
 From Coq Require Import ZArith NArith List Bool String.
 From RZ.sem Require Import RzIL CSem Diff.
@@ -17,8 +16,18 @@ Definition C03_statement : Prop := faithful_on (fun _ => True).
 Definition w_D3 : cstmts :=
   SCons (SDecl [TS_intN true 8] "a" (Some (EOp (OReg "R" "s"))))
  (SCons (SExpr (EAssign AAssign (EOp (OReg "R" "dd")) (ECast [TS_intN false 64] (EOp (OIdent "a"))))) SNil).
-Theorem C03_refuted_widening_fill : mistranslated w_D3 32.
-Proof. left. vm_compute. reflexivity. Qed.
+(* FIXED in /repo (fix: a signed value widened to an unsigned type is sign extended): before the fix this was `mistranslated w_D3 32` *)
+Example C03_fixed_widening_fill : forallb (fun s => match verdict_of (cfg_insn 0) w_D3 s with Some Agree => true | _ => false end) [32; 33; 34; 35; 46; 74] = true.
+Proof. vm_compute. reflexivity. Qed.
+
+(* still open, D29: a declaration with initialiser of a name that an earlier (closed) block declared converts the initialiser through the
+   OLD type:  { { int8_t x = 1; } { int32_t x = 300; RdV = x; } }  (the real compiler writes 44; in the IL semantics the local x is set at two widths) *)
+Definition w_D29 : cstmts :=
+  SCons (SBlock (SCons (SDecl [TS_intN true 8] "x" (Some (EOp (ONum 1 false "")))) SNil))
+ (SCons (SBlock (SCons (SDecl [TS_intN true 32] "x" (Some (EOp (ONum 300 false ""))))
+               (SCons (SExpr (EAssign AAssign (EOp (OReg "R" "d")) (EOp (OIdent "x")))) SNil))) SNil).
+Theorem C03_refuted_redeclared_conversion : mistranslated w_D29 32.
+Proof. right. vm_compute. reflexivity. Qed.
 
 (* implicit conversion of ?: arms: { int8_t a = RsV; uint8_t b = RtV; RdV = RuV ? a : b; } *)
 Definition w_D13c : cstmts :=
@@ -30,7 +39,7 @@ Example C03_fixed_ternary_arms : forallb (fun s => match verdict_of (cfg_insn 0)
 Proof. vm_compute. reflexivity. Qed.
 
 Theorem C03_refuted : ~ C03_statement.
-Proof. apply (refute _ w_D3 32 I). exact C03_refuted_widening_fill. Qed.
+Proof. apply (refute _ w_D29 32 I). exact C03_refuted_redeclared_conversion. Qed.
 Print Assumptions C03_refuted.
 
 Example C03_repaired_witnesses :
@@ -63,7 +72,7 @@ Print Assumptions C03_casts_correct_repaired.
 From RZ.sem Require Import CBody.
 From RZ.gen Require Import OpTablesGen.
 From RZ.proofs Require Import OpTablesProofs.
-Theorem C03_cast_table_is_the_compilers : forall target src x op t1 ib0 ic0 ib1 ic1 b,
-  elab_text x b (cast_text op target src t1 ib0 ic0 ib1 ic1) = Some (cast_il_exec target src x).
+Theorem C03_cast_table_is_the_compilers : forall target src x op t1 ib0 ic0 ib1 ic1 il0 v0 b,
+  elab_text x b (cast_text op target src t1 ib0 ic0 ib1 ic1 il0 v0) = Some (cast_il_exec target src (il0 && (0 <=? v0)%Z) x).
 Proof. exact cast_text_ok. Qed.
 Print Assumptions C03_cast_table_is_the_compilers.
